@@ -15,8 +15,17 @@ use itertools::Itertools;
 use std::ops::Deref;
 
 #[cfg(feature = "parallel")]
+#[cfg(not(nuts_rs_verif_sched))]
 use rayon::{ScopeFifo, ThreadPoolBuilder};
+// Verification hook (H2): under `--cfg nuts_rs_verif_sched` the concurrency primitives of the
+// parallel sampler come from a facade crate that runs them under a controlled scheduler.
+#[cfg(all(feature = "parallel", nuts_rs_verif_sched))]
+use sched_facade::{
+    Arc, Instant, JoinHandle, Mutex, Receiver, RecvTimeoutError, ScopeFifo, Sender, SyncSender,
+    ThreadPoolBuilder, TryRecvError, channel, spawn, sync_channel,
+};
 #[cfg(feature = "parallel")]
+#[cfg(not(nuts_rs_verif_sched))]
 use std::{
     sync::{
         Arc, Mutex,
